@@ -226,6 +226,22 @@ def standin_entry_points(tier, seed):
         got = cirq.final_density_matrix(circ, qubit_order=order, dtype=np.complex128, **kw)
         if not np.allclose(got, np.outer(want, want.conj()), atol=1e-6):
             bad("cirq.final_density_matrix", circ, order, desc, "differs from |psi><psi|")
+        # an integer initial state outside the register: the same refusal whatever the options (no silent wrap-around)
+        if it % 5 == 0:
+            for bad_int in (D, D + 3, -1):
+                outcomes = {}
+                for split in (True, False):
+                    for sname, mk in (("Simulator", cirq.Simulator), ("DensityMatrixSimulator", cirq.DensityMatrixSimulator)):
+                        cases += 1
+                        try:
+                            mk(split_untangled_states=split).simulate(circ, qubit_order=order, initial_state=bad_int)
+                            outcomes[(sname, split)] = "accepted"
+                        except ValueError:
+                            outcomes[(sname, split)] = "ValueError"
+                        except Exception as ex:
+                            outcomes[(sname, split)] = type(ex).__name__
+                if "accepted" in outcomes.values():
+                    bad("simulate(initial_state=<int outside the register>)", circ, order, f"int {bad_int}", f"a basis state outside the register of dimension {D} is accepted: {outcomes}")
         if len(fails) >= 4:
             break
     return dict(function="cirq-core/cirq/{circuits/circuit.py,sim/mux.py,sim/sparse_simulator.py,sim/density_matrix_simulator.py}[entry points vs ordered matrix product]", case="entry-points",
